@@ -70,6 +70,9 @@ func RunCommitSync(seed int64, idx int) *Result {
 	}
 	lastCbCtx := func() context.Context { cbMu.Lock(); defer cbMu.Unlock(); return cbCtx }
 	var parkCommittee int32
+	rg := newGate() // the new-round callback parks on it: a slow consumer inside the handling of a sync or commit
+	rg.Open()
+	nd.BlockRound = func(ctx context.Context, h uint64) { rg.waitAt(context.Background(), h) }
 	cg := newGate() // the committee contract parks on it (and on its context) while a round is being set up
 	cg.Open()
 	nd.Mem.OnRequest = func(ctx context.Context, h uint64) error {
@@ -110,6 +113,7 @@ func RunCommitSync(seed int64, idx int) *Result {
 	}
 	finish := func() *Result {
 		g.Open()
+		rg.Open()
 		sendGate.Open()
 		nd.Cancel()
 		c2, cancel2 := context.WithTimeout(context.Background(), 20*time.Second)
@@ -167,11 +171,11 @@ func RunCommitSync(seed int64, idx int) *Result {
 		for _, id := range others {
 			nd.ML.HandleConsensusMessage(nd.ctx, mk(ref.EnvC, ref.C, id))
 		}
-		for i := 0; i < 100000; i++ {
+		for t0 := time.Now(); time.Since(t0) < 10*time.Second; {
 			if commitSeen(h) != nil {
 				return true
 			}
-			time.Sleep(100 * time.Microsecond)
+			time.Sleep(200 * time.Microsecond)
 		}
 		return false
 	}
@@ -420,6 +424,66 @@ func RunCommitSync(seed int64, idx int) *Result {
 				net.violate("C14", "stale-sync-changed-the-outcome", "UpdateState heights %v (all below the height %d being decided): the election timer registered for (%d,%d) before them is now (%d,%d) registered=%v — the round of the current height was torn down", hs, h0, eh, ev, eh2, ev2, live)
 			}
 			continue
+		case kind == 9 && rng.Intn(2) == 0: // the election timer of the round a sync starts fires while the worker is still handling that sync
+			target := h0 + uint64(rng.Intn(3))
+			if int64(target) <= lastSync {
+				continue
+			}
+			rg.Close()
+			if !call(&spi.Blk{H: target, Body: "synced"}) {
+				rg.Open()
+				return finish()
+			}
+			lastSync = int64(target)
+			staleBefore = false
+			net.SetSeed(nd.Id, target+1, nil, false)
+			parked := false
+			for i := 0; i < 50000 && !parked; i++ {
+				parked = atomic.LoadInt32(&rg.parked) > 0
+				time.Sleep(100 * time.Microsecond)
+			}
+			if !parked {
+				rg.Open()
+				net.count("inconclusive: new-round callback did not park")
+				return finish()
+			}
+			eh, ev, live := nd.Manual.Current()
+			if !live || eh != target+1 || ev != 0 {
+				rg.Open()
+				net.count("inconclusive: the new round's election timer was not registered yet")
+				return finish()
+			}
+			nd.Manual.Fire(nd.ctx, target+1, 0) // what the expired timer of (target+1, 0) sends
+			nd.Barrier()                        // the main loop has cancelled that view's context and queued the trigger for the worker
+			rg.Open()
+			if nd.Witness(32) < 32 {
+				net.count("inconclusive: worker iterations not witnessed")
+				return finish()
+			}
+			h1, v1 := nd.HV()
+			net.count("C14 batches judged")
+			net.count("C19 current triggers judged")
+			net.count("C05 triggers fired during the handling of a sync judged")
+			if h1 == target+1 && v1 == 0 {
+				for _, p := range []string{"C05", "C19"} {
+					rule := map[string]string{"C05": "election-trigger-lost-in-hand-off", "C19": "current-trigger-not-acted-upon"}[p]
+					net.violate(p, rule, "the election trigger of the registered pair (%d,0) was handed to the main loop while the worker was still inside the handling of the sync that started that round (slow new-round callback); after 32 witnessed worker iterations the node is still in view 0: the trigger was never acted upon and the timer is one-shot", target+1)
+				}
+			}
+			if h1 < target+1 {
+				net.violate("C14", "newest-sync-did-not-take-effect", "UpdateState height %d returned nil while the node was deciding height %d; after 32 witnessed worker iterations it is at height %d (view %d)", target, h0, h1, v1)
+			}
+			// back to view 0 of a fresh height for the rounds that follow (the scripted traffic is view-0 traffic)
+			if !call(&spi.Blk{H: h1, Body: "synced"}) {
+				return finish()
+			}
+			lastSync = int64(h1)
+			net.SetSeed(nd.Id, h1+1, nil, false)
+			if nd.Witness(16) < 16 {
+				net.count("inconclusive: worker iterations not witnessed")
+				return finish()
+			}
+			prevSig = nil
 		default: // a plain newer sync
 			target := h0 + uint64(rng.Intn(3))
 			if int64(target) <= lastSync {
